@@ -264,6 +264,10 @@ func (c *Core) forward(bp BundleDescriptor) {
 	var wg sync.WaitGroup
 	var once sync.Once
 
+	// failureMutex serializes the Algorithm's bookkeeping for failed transmissions, which is a
+	// read-modify-write of the bundle's routing state and is reported from one goroutine per peer.
+	var failureMutex sync.Mutex
+
 	wg.Add(len(nodes))
 
 	for _, node := range nodes {
@@ -280,7 +284,9 @@ func (c *Core) forward(bp BundleDescriptor) {
 					"error":  err,
 				}).Warn("Sending bundle failed")
 
+				failureMutex.Lock()
 				c.routing.ReportFailure(bp, node)
+				failureMutex.Unlock()
 			} else {
 				log.WithFields(log.Fields{
 					"bundle": bp.ID(),
